@@ -202,6 +202,8 @@ fn err_code(e: &str) -> String {
         "e:4".into()
     } else if e.starts_with("NOSCRIPT") {
         "e:5".into()
+    } else if e.starts_with("ERR One or more scores can't be converted into double") {
+        "e:6".into()
     } else {
         format!("e:?{}", e.replace(' ', "_"))
     }
@@ -833,7 +835,8 @@ fn corpus(ctx: &Ctx) -> Vec<Case> {
     cs.push(Case { n: 4, class: "two-key:LMOVE", ops });
     let mut ops = Vec::new();
     for d in p.iter().skip(1).take(20) {
-        ops.push(Op::new("RPUSH", vec![p[0].clone()], vec![b"b".to_vec(), b"a".to_vec(), b"ab".to_vec()]));
+        // numeric elements: SORT is numeric (10 after 9) and refuses anything that is not a number
+        ops.push(Op::new("RPUSH", vec![p[0].clone()], vec![b"10".to_vec(), b"9".to_vec(), b"2".to_vec()]));
         ops.push(Op::k2("SORTSTORE", &p[0], d));
         ops.push(Op::k("LRANGE", d));
         ops.push(Op::new("DEL", vec![p[0].clone(), d.clone()], vec![]));
